@@ -2932,7 +2932,7 @@ func (pc *PeerConnection) generateUnmatchedSDP(
 
 		if pc.configuration.AlwaysNegotiateDataChannels || pc.sctpTransport.dataChannelsRequested != 0 {
 			mediaSections = append(mediaSections, mediaSection{
-				id:       strconv.Itoa(len(mediaSections)),
+				id:       unusedMid(mediaSections),
 				data:     true,
 				sctpInit: localSctpInit,
 			})
@@ -3111,7 +3111,7 @@ func (pc *PeerConnection) generateMatchedSDP(
 					localSctpInit = pc.sctpTransport.GetSctpInit()
 				}
 				mediaSections = append(mediaSections, mediaSection{
-					id:       strconv.Itoa(len(mediaSections)),
+					id:       unusedMid(mediaSections),
 					data:     true,
 					sctpInit: localSctpInit,
 				})
@@ -3149,6 +3149,26 @@ func (pc *PeerConnection) generateMatchedSDP(
 		pc.api.settingEngine.getSCTPMaxMessageSize(),
 		ignoreRidPauseForRecv,
 	)
+}
+
+// unusedMid returns a mid for a new media section that no section in
+// mediaSections uses: the number of sections, as before, unless a remote
+// endpoint chose that value (mids need not be 0..n-1), then the next free one.
+func unusedMid(mediaSections []mediaSection) string {
+	for candidate := len(mediaSections); ; candidate++ {
+		mid := strconv.Itoa(candidate)
+		inUse := false
+		for _, section := range mediaSections {
+			if section.id == mid {
+				inUse = true
+
+				break
+			}
+		}
+		if !inUse {
+			return mid
+		}
+	}
 }
 
 func (pc *PeerConnection) setGatherCompleteHandler(handler func()) {
